@@ -57,8 +57,12 @@ def gen(ctx, tier, rng):
     maxb = 6 if full else 5
     for b in range(1, maxb + 1):
         for blk in itertools.product(alph, repeat=b):
-            pre = bytes(rng.choice([0x00, 0x80, 0x55]) for _ in range(rng.randrange(0, 4)))
-            L.append("unpad %s %d" % (hexs(pre + bytes(blk)), b))
+            # the byte just before the final block is part of the enumeration (unpad_reads_final_block:
+            # the result must not depend on it), plus the case where the block is the whole buffer
+            L.append("unpad %s %d" % (hexs(bytes(blk)), b))
+            for before in (0x00, 0x80, 0x01):
+                pre = bytes(rng.choice([0x00, 0x80, 0x55]) for _ in range(rng.randrange(0, 3)))
+                L.append("unpad %s %d" % (hexs(pre + bytes([before]) + bytes(blk)), b))
     # unpad: other bytes (0x81, 0x7f, 0xff, 0x08) must not be taken for the marker
     for other in (0x81, 0x7f, 0xff, 0x08, 0x40):
         for b in (1, 2, 4, 8, 16):
